@@ -201,6 +201,7 @@ def jobs(tier):
     js.append(dict(name='H11d:route:ring5+chord:A->C:three_include_nodes', fn='h_route',
                    params=dict(shape='ring5+chord', src='A', dst='C', symmetric=True, triples=True), witness_every=10,
                    budget_s=150 if tier == 'quick' else 600, opts=dict(no_ties=True), cost=300))
+    js.append(dict(name='H11e:requests_differing_in_hop_types_are_not_merged', module='harness.c19', fn='h_aggregation', cost=5))
     from harness import c12
     js += c12.include_jobs(tier, 'H11c')
     return js
